@@ -111,16 +111,17 @@ class AsyncListener:
         data: _bytes,
         addrs: Union[Tuple[str, int], Tuple[str, int, int, int]],
     ) -> None:
-        if (
+        duplicate = (
             self.data == data
             and (now - _DUPLICATE_PACKET_SUPPRESSION_INTERVAL) < self.last_time
             and self.last_message is not None
-            and not (self.last_message.is_query() and self.last_message.has_qu_question())
-        ):
+        )
+        if duplicate and not (self.last_message.is_query() and self.last_message.has_qu_question()):
             # Guard against duplicate packets, only a query with a unicast
             # question is let through again since it may have to be answered
-            # by unicast once more; a response that merely echoes such a
-            # question is a duplicate like any other
+            # by unicast once more (nothing else is done for it a second
+            # time); a response that merely echoes such a question is a
+            # duplicate like any other
             if debug:
                 log.debug(
                     'Ignoring duplicate message with no unicast questions received from %s [socket %s] (%d bytes) as [%r]',
@@ -184,6 +185,9 @@ class AsyncListener:
 
         if TYPE_CHECKING:
             assert self.transport is not None
+        if duplicate:
+            self.handle_query_or_defer(msg, addr, port, self.transport, v6_flow_scope, True)
+            return
         self.handle_query_or_defer(msg, addr, port, self.transport, v6_flow_scope)
 
     def handle_query_or_defer(
@@ -193,11 +197,17 @@ class AsyncListener:
         port: _int,
         transport: _WrappedTransport,
         v6_flow_scope: Union[Tuple[()], Tuple[int, int]],
+        duplicate: bool = False,
     ) -> None:
         """Deal with incoming query packets.  Provides a response if
-        possible."""
+        possible.
+
+        duplicate is set for the repeat of a query (with a unicast question)
+        that was handled less than a second ago: it only gets its unicast
+        answers once more.
+        """
         if not msg.truncated:
-            self._respond_query(msg, addr, port, transport, v6_flow_scope)
+            self._respond_query(msg, addr, port, transport, v6_flow_scope, duplicate)
             return
 
         deferred = self._deferred.setdefault(addr, [])
@@ -226,6 +236,7 @@ class AsyncListener:
         port: _int,
         transport: _WrappedTransport,
         v6_flow_scope: Union[Tuple[()], Tuple[int, int]],
+        duplicate: bool = False,
     ) -> None:
         """Respond to a query and reassemble any truncated deferred packets."""
         self._cancel_any_timers_for_addr(addr)
@@ -233,7 +244,7 @@ class AsyncListener:
         if msg:
             packets.append(msg)
 
-        self._query_handler.handle_assembled_query(packets, addr, port, transport, v6_flow_scope)
+        self._query_handler.handle_assembled_query(packets, addr, port, transport, v6_flow_scope, duplicate)
 
     def error_received(self, exc: Exception) -> None:
         """Likely socket closed or IPv6."""
